@@ -241,3 +241,17 @@ package httpscenario
 //@ may_panic true
 //@ at call NewHTTP2Gun assert [the-gun-s-own-configuration] arg(conf) == conf && arg(answLog) == answLog
 //@ ensures [construction-failure-is-returned] result1 == result_of(NewHTTP2Gun, 1)
+
+//@ func getHostWithoutPort
+//@ props C09
+//@ modifies nothing
+//@ ensures [host-part-or-the-whole-target] imp(result_of(net.SplitHostPort, 2) == nil, result == result_of(net.SplitHostPort, 0)) && imp(result_of(net.SplitHostPort, 2) != nil, result == target)
+//@ at call net.SplitHostPort assert arg(a0) == target0
+
+// The provider numbers the scenarios it hands out; the number is what the gun reports as the ammo id.
+//@ func (a *Scenario) SetID
+//@ props C10 C15
+//@ nilsafe
+//@ requires a != nil
+//@ ensures a.ID == id
+//@ modifies a.ID
